@@ -3,6 +3,7 @@ package httpserver
 import (
 	"net/http"
 	"strconv"
+	"sync"
 
 	"github.com/prometheus/client_golang/prometheus"
 
@@ -62,6 +63,9 @@ var (
 	)
 )
 
+// scrapeLock serializes scrapes, each of which rebuilds the gauge vectors
+var scrapeLock sync.Mutex
+
 // DeleteConsumerMetrics deletes all metrics that are labeled with a consumer group
 func DeleteConsumerMetrics(cluster, consumer string) {
 	labels := map[string]string{
@@ -110,6 +114,18 @@ func (hc *Coordinator) handlePrometheusMetrics() http.HandlerFunc {
 	promHandler := promhttp.Handler()
 
 	return http.HandlerFunc(func(resp http.ResponseWriter, req *http.Request) {
+		// Rebuild every series from the current state on each scrape, so that nothing is reported for a group or
+		// topic that has since been deleted or has expired (the Delete*Metrics calls cannot cover every path, and a
+		// scrape that is served a cached status can re-create series that were just deleted)
+		scrapeLock.Lock()
+		defer scrapeLock.Unlock()
+		consumerTotalLagGauge.Reset()
+		consumerStatusGauge.Reset()
+		partitionStatusGauge.Reset()
+		consumerPartitionCurrentOffset.Reset()
+		consumerPartitionLagGauge.Reset()
+		topicPartitionOffsetGauge.Reset()
+
 		for _, cluster := range listClusters(hc.App) {
 			for _, consumer := range listConsumers(hc.App, cluster) {
 				consumerStatus := getFullConsumerStatus(hc.App, cluster, consumer)
